@@ -22,7 +22,7 @@ theorem installKeys_self (p : Key) (rest : List Key) (h : (p :: rest).Nodup) :
   simp [List.filter_cons, filter_ne_self rest p h.1]
 
 theorem validKey_ne_nil {k : Key} (h : validKey k = true) : k ≠ [] := by
-  intro e; subst e; simp [validKey] at h
+  intro e; subst e; exact absurd h (by decide)
 
 theorem contains_eq_false_of_not_mem {l : List Key} {k : Key} (h : k ∉ l) : l.contains k = false := by
   simpa using h
@@ -123,5 +123,96 @@ theorem foldlM_addKey (l : List Key) (acc : Ring) (hacc : acc ≠ []) (hnd : (ac
     simp only [Option.bind_eq_bind, Option.bind_some]
     have := ih (acc ++ [k]) (by simp) (by simpa using hnd) (fun x hx => hv x (List.mem_cons_of_mem _ hx))
     simpa using this
+
+/-- whatever `AddKey` returns is a well-formed ring (from the empty ring or a well-formed one) -/
+theorem addKey_ok_RingOK (acc : Ring) (k : Key) (r : Ring) (hacc : acc = [] ∨ RingOK acc)
+    (h : addKey acc k = .ok r) : RingOK r := by
+  by_cases hv : validKey k = true
+  · rcases hacc with hnil | hok
+    · subst hnil
+      have : addKey [] k = .ok [k] := by unfold addKey; simp [hv, installKeys]
+      rw [this] at h
+      injection h with h
+      subst h
+      exact ⟨by simp, by simp, fun x hx => by simp at hx; subst hx; exact hv⟩
+    · by_cases hk : k ∈ acc
+      · rw [addKey_existing acc k hv hk] at h
+        injection h with h
+        subst h
+        exact hok
+      · have hok' := RingOK_append acc k hok hk hv
+        rw [addKey_new acc k hok.1 hok'.2.1 hv] at h
+        injection h with h
+        subst h
+        exact hok'
+  · have hv' : validKey k = false := by simpa using hv
+    rw [addKey_invalid acc k hv'] at h
+    cases h
+
+theorem addKey?_some_RingOK (acc : Ring) (k : Key) (r : Ring) (hacc : acc = [] ∨ RingOK acc)
+    (h : addKey? acc k = some r) : RingOK r := by
+  unfold addKey? at h
+  cases hr : addKey acc k with
+  | error e => rw [hr] at h; simp [Except.toOption] at h
+  | ok r' =>
+    rw [hr] at h
+    simp only [Except.toOption, Option.some.injEq] at h
+    subst h
+    exact addKey_ok_RingOK acc k r' hacc hr
+
+theorem foldlM_addKey?_RingOK (l : List Key) (acc r : Ring) (hacc : RingOK acc)
+    (h : l.foldlM addKey? acc = some r) : RingOK r := by
+  induction l generalizing acc with
+  | nil => simp at h; subst h; exact hacc
+  | cons k rest ih =>
+    rw [List.foldlM_cons] at h
+    cases ha : addKey? acc k with
+    | none => rw [ha] at h; simp at h
+    | some a =>
+      rw [ha] at h
+      simp only [Option.bind_eq_bind, Option.bind_some] at h
+      exact ih a (addKey?_some_RingOK acc k a (Or.inr hacc) ha) h
+
+/-- **Whatever the agent's loader accepts is a well-formed ring**: non-empty, without
+duplicates, every key 16, 24 or 32 bytes long — for every file content. -/
+theorem load_RingOK (f : List Key) (r : Ring) (h : load f = some r) : RingOK r := by
+  cases f with
+  | nil => simp [load] at h
+  | cons p rest =>
+    unfold load newKeyring at h
+    simp only [List.isEmpty_cons, Bool.false_and, Bool.false_eq_true, ↓reduceIte] at h
+    split at h
+    · cases h
+    · rw [List.foldlM_cons] at h
+      cases ha : addKey? [] p with
+      | none => rw [ha] at h; simp at h
+      | some a =>
+        rw [ha] at h
+        simp only [Option.bind_eq_bind, Option.bind_some] at h
+        exact foldlM_addKey?_RingOK _ a r (addKey?_some_RingOK [] p a (Or.inl rfl) ha) h
+
+theorem mem_installKeys (keys : List Key) (p x : Key) : x ∈ installKeys keys p ↔ x = p ∨ x ∈ keys := by
+  unfold installKeys
+  simp only [List.mem_cons, List.mem_filter, Bool.not_eq_eq_eq_not, Bool.not_true, beq_eq_false_iff_ne, ne_eq]
+  by_cases h : x = p
+  · simp [h]
+  · simp [h]
+
+/-- `AddKey` never loses a key, and the added key is on the ring afterwards -/
+theorem addKey_ok_mem (acc : Ring) (k : Key) (r : Ring) (h : addKey acc k = .ok r) :
+    (∀ x ∈ acc, x ∈ r) ∧ k ∈ r := by
+  unfold addKey at h
+  by_cases hv : validKey k = true
+  · by_cases hc : acc.contains k = true
+    · simp only [hv, Bool.not_true, Bool.false_eq_true, ↓reduceIte, hc, Except.ok.injEq] at h
+      subst h
+      exact ⟨fun x hx => hx, by simpa using hc⟩
+    · simp only [hv, Bool.not_true, Bool.false_eq_true, ↓reduceIte, hc, Except.ok.injEq] at h
+      subst h
+      constructor
+      · intro x hx
+        rw [mem_installKeys]; right; exact List.mem_append_left _ hx
+      · rw [mem_installKeys]; right; simp
+  · simp [hv] at h
 
 end SerfProofs.Keyring
